@@ -168,7 +168,7 @@ impl Append for RollingFileAppender {
         let mut writer = self.writer.lock();
 
         let is_pre_process = self.policy.is_pre_process();
-        let log_writer = self.get_writer(&mut writer)?;
+        let log_writer = self.get_writer(&mut writer, false)?;
 
         if is_pre_process {
             let len = log_writer.len;
@@ -184,7 +184,7 @@ impl Append for RollingFileAppender {
 
             self.policy.process(&mut file)?;
 
-            let log_writer_new = self.get_writer(&mut writer)?;
+            let log_writer_new = self.get_writer(&mut writer, false)?;
             self.encoder.encode(log_writer_new, record)?;
             #[cfg(feature = "verif_hooks")]
             crate::verif::point("rolling.append.encoded", 1);
@@ -220,19 +220,21 @@ impl RollingFileAppender {
         }
     }
 
-    fn get_writer<'a>(&self, writer: &'a mut Option<LogWriter>) -> io::Result<&'a mut LogWriter> {
+    // `truncate` is only requested when the appender is built: a reopen after a roll finds
+    // either no file or, if the roll failed, a file full of acknowledged records to keep.
+    fn get_writer<'a>(
+        &self,
+        writer: &'a mut Option<LogWriter>,
+        truncate: bool,
+    ) -> io::Result<&'a mut LogWriter> {
         if writer.is_none() {
             let file = OpenOptions::new()
                 .write(true)
-                .append(self.append)
-                .truncate(!self.append)
+                .append(!truncate)
+                .truncate(truncate)
                 .create(true)
                 .open(&self.path)?;
-            let len = if self.append {
-                file.metadata()?.len()
-            } else {
-                0
-            };
+            let len = if truncate { 0 } else { file.metadata()?.len() };
             *writer = Some(LogWriter {
                 file: BufWriter::with_capacity(1024, file),
                 len,
@@ -296,7 +298,7 @@ impl RollingFileAppenderBuilder {
         }
 
         // open the log file immediately
-        appender.get_writer(&mut appender.writer.lock())?;
+        appender.get_writer(&mut appender.writer.lock(), !appender.append)?;
 
         Ok(appender)
     }
